@@ -2,6 +2,7 @@
 //! Usage: mc-core <PROPERTY> <quick|thorough>      |     mc-core <PROPERTY> --replay <file>
 mod conserve;
 mod conv;
+mod fx;
 mod ledger;
 mod lex;
 mod cli;
@@ -42,6 +43,7 @@ fn main() {
         "C05" => ledger::c05(tier),
         "C06" => perm::c06(tier),
         "C07" => years::c07(tier),
+        "C08" => fx::c08(tier),
         "C09" => ledger::c09(tier),
         "C10" => ledger::c10(tier),
         "C11" => ledger::c11(tier),
